@@ -31,17 +31,17 @@ CORPUS = []
 def cases(rng, tier):
     cs = []
     sm, big = small_files(), smaller_files()
-    lim = 1500 if tier == "quick" else 20000
+    lim = 1500 if tier == "quick" else 2000
     pairs = [(a, b) for a in sm for b in sm]
     rng.shuffle(pairs)
-    for (a, b) in pairs[: (14 if tier == "quick" else len(pairs))]:
+    for (a, b) in pairs[: (14 if tier == "quick" else 400)]:
         cs.append(("laws %s %s %d %d" % (a, b, rng.randrange(1 << 30), lim), "small_timbuk"))
     bp = [(a, b) for a in big[:8] for b in big[:8]]
     rng.shuffle(bp)
-    for (a, b) in bp[: (5 if tier == "quick" else len(bp))]:
+    for (a, b) in bp[: (5 if tier == "quick" else 30)]:
         cs.append(("laws %s %s %d %d" % (a, b, rng.randrange(1 << 30), lim), "aut_timbuk_smaller"))
     # generated medium-sized automata (10-40 states): too large for the verified decider, the laws still prescribe every answer
-    ng = 60 if tier == "quick" else 1500
+    ng = 60 if tier == "quick" else 600
     for i in range(ng):
         sg = rng.choice([gen.SIGMA, gen.SIGMA3])
         n = rng.randint(6, 40)
@@ -55,13 +55,13 @@ def cases(rng, tier):
             m = rng.randint(6, 40)
             b = gen.rand_ta(rng, m, rng.randint(m, 3 * m), sigma=sg, pfinal=0.2, leafbias=0.3)
         if rng.random() < 0.3: a, _ = gen.permute_states(rng, a, sparse=True)
-        cs.append(("laws %s %s %d %d" % (a.fmt(), b.fmt(), rng.randrange(1 << 30), 400 if tier == "quick" else 3000), "generated_medium"))
+        cs.append(("laws %s %s %d %d" % (a.fmt(), b.fmt(), rng.randrange(1 << 30), 400 if tier == "quick" else 1500), "generated_medium"))
     if tier != "quick":
         listed = [l.split() for l in open(os.path.join(REPO, "tests", "aut_timbuk_smaller_incl.txt")) if len(l.split()) == 3]
         rng.shuffle(listed)
         d = os.path.join(REPO, "tests", "aut_timbuk_smaller")
-        for (a, b, _) in listed[:60]:
-            cs.append(("laws %s %s %d %d" % (os.path.join(d, a), os.path.join(d, b), rng.randrange(1 << 30), 5000), "aut_timbuk_smaller_listed"))
+        for (a, b, _) in listed[:25]:
+            cs.append(("laws %s %s %d %d" % (os.path.join(d, a), os.path.join(d, b), rng.randrange(1 << 30), 2000), "aut_timbuk_smaller_listed"))
     return cs
 def nontrivial(c, impl, verd):
     for w in verd.split():
